@@ -39,7 +39,9 @@ package marbl
 import (
 	"io"
 	"net/http"
+	"sort"
 	"strconv"
+	"strings"
 	"sync/atomic"
 	"time"
 
@@ -192,6 +194,11 @@ func (s *Stream) LogRequest(id string, req *http.Request) error {
 		}
 	}
 
+	// net/http keeps the Trailer header field in req.Trailer, not in req.Header.
+	if len(req.Trailer) > 0 {
+		s.sendHeader(id, Request, "Trailer", trailerNames(req.Trailer))
+	}
+
 	// Leave absent bodies alone: wrapping them changes how the request is framed.
 	if req.Body != nil && req.Body != http.NoBody {
 		req.Body = &bodyLogger{
@@ -227,6 +234,11 @@ func (s *Stream) LogResponse(id string, res *http.Response) error {
 		}
 	}
 
+	// net/http keeps the Trailer header field in res.Trailer, not in res.Header.
+	if len(res.Trailer) > 0 {
+		s.sendHeader(id, Response, "Trailer", trailerNames(res.Trailer))
+	}
+
 	// Leave an absent body alone.
 	if res.Body != nil {
 		res.Body = &bodyLogger{
@@ -238,6 +250,18 @@ func (s *Stream) LogResponse(id string, res *http.Response) error {
 	}
 
 	return nil
+}
+
+// trailerNames renders the value of the Trailer header field that announces
+// the trailer fields of t, as net/http writes it: the names in sorted order.
+func trailerNames(t http.Header) string {
+	names := make([]string, 0, len(t))
+	for k := range t {
+		names = append(names, k)
+	}
+	sort.Strings(names)
+
+	return strings.Join(names, ",")
 }
 
 type bodyLogger struct {
